@@ -440,6 +440,89 @@ macro_rules! prefixed_bytes_case {
 
 include!(concat!(env!("VERIF_GEN_DIR"), "/app_parse_parser_gen.rs"));
 
+// ------------------------------------------------------------------------------------------ encoder side
+// What the request builders' primitives put on the wire, compared octet by octet with IEEE 1815 (object header =
+// group, variation, qualifier, range/count field).  The parser half of "what one side encodes the other decodes" is the
+// generated family above (same group/variation/qualifier, container function called directly): handing the encoder's
+// output to the parser inside one query was tried and runs out of memory (an array that mixes constant and symbolic
+// bytes is read back as fully symbolic, which drags every variation's parser in).
+use crate::app::format::write::HeaderWriter;
+use crate::app::Timestamp;
+
+// @harness c09_enc_request_headers
+// @props C09
+// @tier quick
+// @timeout 600
+// @units HeaderWriter::{write_range_only::<u8>, write_range_only::<u16>, write_limited_count::<u8>, write_limited_count::<u16>, write_all_objects_header, write_clear_restart}, Index::{RANGE_QUALIFIER, LIMITED_COUNT_QUALIFIER}, Variation::{write, to_group_and_var}
+// @bounds any 8/16-bit start/stop and count: range headers are [g v 00 start stop] / [g v 01 start(LE) stop(LE)], limited-count headers [g v 07 n] / [g v 08 n(LE)], all-objects [g v 06], clear-restart [50h 01 00 07 07 00]
+#[kani::proof]
+#[kani::unwind(32)]
+fn c09_enc_request_headers() {
+    let a8: u8 = kani::any();
+    let b8: u8 = kani::any();
+    let a16: u16 = kani::any();
+    let b16: u16 = kani::any();
+    let mut buf = [0u8; 32];
+    let n = {
+        let mut c = WriteCursor::new(&mut buf);
+        let mut w = HeaderWriter::new(&mut c);
+        assert!(w.write_range_only(Variation::Group30Var0, a8, b8).is_ok());
+        assert!(w.write_range_only(Variation::Group20Var0, a16, b16).is_ok());
+        assert!(w.write_limited_count(Variation::Group2Var0, a8).is_ok());
+        assert!(w.write_limited_count(Variation::Group22Var0, a16).is_ok());
+        assert!(w.write_all_objects_header(Variation::Group60Var3).is_ok());
+        assert!(w.write_clear_restart().is_ok());
+        c.position()
+    };
+    let (al, ah) = ((a16 & 0xff) as u8, (a16 >> 8) as u8);
+    let (bl, bh) = ((b16 & 0xff) as u8, (b16 >> 8) as u8);
+    let expect = [
+        30, 0, 0x00, a8, b8, //
+        20, 0, 0x01, al, ah, bl, bh, //
+        2, 0, 0x07, a8, //
+        22, 0, 0x08, al, ah, //
+        60, 3, 0x06, //
+        80, 1, 0x00, 7, 7, 0,
+    ];
+    assert!(n == 30);
+    let mut i = 0;
+    while i < 30 {
+        assert!(buf[i] == expect[i]);
+        i += 1;
+    }
+    kani::cover!(a16 > 255);
+}
+
+// @harness c09_enc_count_of_one_time
+// @props C09,C18
+// @tier quick
+// @timeout 600
+// @units HeaderWriter::write_count_of_one::<Group50Var1> / ::<Group50Var3>, Timestamp::write
+// @bounds WRITE g50v1 / g50v3 with any 48-bit time (the two time-sync writes): [32h var 07 01 time(6 bytes LE)]
+#[kani::proof]
+#[kani::unwind(4)]
+fn c09_enc_count_of_one_time() {
+    let t: u64 = kani::any();
+    kani::assume(t <= Timestamp::MAX_VALUE);
+    let lan: bool = kani::any();
+    let mut buf = [0u8; 12];
+    {
+        let mut c = WriteCursor::new(&mut buf);
+        let mut w = HeaderWriter::new(&mut c);
+        if lan {
+            assert!(w.write_count_of_one(Group50Var3 { time: Timestamp::new(t) }).is_ok());
+        } else {
+            assert!(w.write_count_of_one(Group50Var1 { time: Timestamp::new(t) }).is_ok());
+        }
+        assert!(c.position() == 10);
+    }
+    let b = t.to_le_bytes();
+    assert!(buf[0] == 50 && buf[1] == if lan { 3 } else { 1 } && buf[2] == 0x07 && buf[3] == 1);
+    assert!(buf[4] == b[0] && buf[5] == b[1] && buf[6] == b[2] && buf[7] == b[3] && buf[8] == b[4] && buf[9] == b[5]);
+    kani::cover!(lan);
+    kani::cover!(!lan);
+}
+
 // @harness c09_qualifier_codes
 // @props C09
 // @tier quick
